@@ -101,10 +101,13 @@ func DefaultWorldCfg(seed int64) WorldCfg {
 
 // World holds the keys and the genesis of a chain; it is a pure function of its config.
 type World struct {
-	Cfg      WorldCfg
-	Vals     []*ValKeys // genesis + extra
-	Users    []*Account
-	Team     *Account
+	Cfg   WorldCfg
+	Vals  []*ValKeys // genesis + extra
+	Users []*Account
+	Team  *Account
+	// Poor: accounts funded with exactly one / two transaction fees (not in AllAccounts, so nothing else picks them):
+	// their vote is the vote of an address with no balance, stake or tips left
+	Poor     []*Account
 	ByAddr   map[string]*Account // bech32 -> account (users, team, operators)
 	GenState map[string]json.RawMessage
 }
@@ -146,6 +149,11 @@ func NewWorld(cfg WorldCfg) *World {
 	}
 	w.Team = newAccount(cfg.Seed, "team", 0)
 	w.ByAddr[w.Team.Bech()] = w.Team
+	for i := 0; i < 3; i++ {
+		pa := newAccount(cfg.Seed, "poor", i)
+		w.Poor = append(w.Poor, pa)
+		w.ByAddr[pa.Bech()] = pa
+	}
 	return w
 }
 
@@ -230,6 +238,12 @@ func (w *World) Genesis(a *app.App) map[string]json.RawMessage {
 	for _, acc := range w.AllAccounts() {
 		accs = append(accs, authtypes.NewBaseAccount(acc.Addr, nil, 0, 0))
 		bal := math.NewInt(cfg.UserBalance)
+		balances = append(balances, banktypes.Balance{Address: acc.Bech(), Coins: sdk.NewCoins(sdk.NewCoin(Denom, bal))})
+		total = total.Add(bal)
+	}
+	for i, acc := range w.Poor {
+		accs = append(accs, authtypes.NewBaseAccount(acc.Addr, nil, 0, 0))
+		bal := math.NewInt(int64(DefaultFee) * int64(1+i%2))
 		balances = append(balances, banktypes.Balance{Address: acc.Bech(), Coins: sdk.NewCoins(sdk.NewCoin(Denom, bal))})
 		total = total.Add(bal)
 	}
